@@ -291,6 +291,36 @@ def run(ck):
         ck.ob(R2, f"{TI}:_Interval._export", ev is not None and norm(ev) == 'export_dt',
               f"_export = {norm(ev) if ev is not None else None}", None, f"{mod.path}:1")
 
+    R3c = ck.rule('R13.3c', "the numeric normal form is handed out as fresh lists: export_dt and as_list are "
+                  "not memoised and do not return a stored container (editing an exported form in place - "
+                  "the documented way to modify an interval - must not change what other exports return)",
+                  'M0', 2)
+    with ck.section('R13.3c'):
+        for fid in (f"{TI}:export_dt", f"{TI}:_Interval.as_list"):
+            fi = prog.func(fid)
+            memo = [norm(d) for d in fi.node.decorator_list
+                    if any(k in norm(d) for k in ('cache', 'memo'))]
+            stored = []
+            for r in [x for x in own_nodes(fi.node) if isinstance(x, ast.Return) and x.value is not None]:
+                v = r.value
+                if isinstance(v, ast.Attribute) and norm(v).startswith('self.'):
+                    stored.append(norm(v))
+                elif isinstance(v, ast.Name):
+                    b = prog.lookup(mod, v.id)
+                    assigned_locally = any(isinstance(t, ast.Name) and t.id == v.id and isinstance(t.ctx, ast.Store)
+                                           for t in ast.walk(fi.node))
+                    if b is not None and not assigned_locally:
+                        stored.append(v.id)
+                elif isinstance(v, ast.Subscript) and isinstance(v.value, ast.Name) and \
+                        prog.lookup(mod, v.value.id) is not None and not any(
+                            isinstance(t, ast.Name) and t.id == v.value.id and isinstance(t.ctx, ast.Store)
+                            for t in ast.walk(fi.node)):
+                    stored.append(norm(v))
+            ok = not memo and not stored
+            ck.ob(R3c, fid, ok, "a new list is built on every call" if ok else
+                  (f"memoised by {memo}: every caller receives one shared mutable list" if memo else
+                   f"returns the stored container {stored}"), fi, fi.node)
+
     with ck.section('R13.3'):
         # ------------------------------------------------------------------ R13.3
         init = base.methods['__init__']
